@@ -3,6 +3,7 @@ package main
 import (
 	"fmt"
 	"go/ast"
+	"go/token"
 	"go/types"
 	"strings"
 )
@@ -51,6 +52,53 @@ func (fv *FuncVC) evalCall(call *ast.CallExpr, st *State) []Val {
 		return fv.evalBuiltin(call, o.Name(), st)
 	case *types.Func:
 		return fv.evalFuncCall(call, o, st)
+	}
+	// call of a local closure `f := func(params) T { return e }` (assigned once): inlined
+	if id, ok := ast.Unparen(call.Fun).(*ast.Ident); ok {
+		if fl := fv.localClosure(fv.info.ObjectOf(id)); fl != nil && straightLine(fl.Body.List) {
+			last := len(fl.Body.List) - 1
+			if ret, ok := fl.Body.List[last].(*ast.ReturnStmt); ok && len(ret.Results) == 1 {
+				var params []*ast.Ident
+				for _, f := range fl.Type.Params.List {
+					params = append(params, f.Names...)
+				}
+				if len(params) == len(call.Args) {
+					saved := map[types.Object]*Val{}
+					for i, p := range params {
+						o := fv.info.Defs[p]
+						a := fv.eval(call.Args[i], st)
+						if old, had := st.vars[o]; had {
+							oo := old
+							saved[o] = &oo
+						} else {
+							saved[o] = nil
+						}
+						st.vars[o] = Val{a.T, a.S, o.Type()}
+					}
+					for _, pre := range fl.Body.List[:last] {
+						fv.execAssign(pre.(*ast.AssignStmt), st)
+					}
+					v := fv.eval(ret.Results[0], st)
+					// the closure's own locals go out of scope (specs resolve names against the store)
+					ast.Inspect(fl.Body, func(m ast.Node) bool {
+						if id, ok := m.(*ast.Ident); ok {
+							if o := fv.info.Defs[id]; o != nil {
+								delete(st.vars, o)
+							}
+						}
+						return true
+					})
+					for o, old := range saved {
+						if old == nil {
+							delete(st.vars, o)
+						} else {
+							st.vars[o] = *old
+						}
+					}
+					return []Val{v}
+				}
+			}
+		}
 	}
 	// dynamic call through a function value
 	fv.note("call through function value %s", fv.text(call.Fun))
@@ -359,6 +407,20 @@ func (fv *FuncVC) evalArgs(call *ast.CallExpr, f *types.Func, st *State) (recv *
 			_, havePtr := types.Unalias(rt).Underlying().(*types.Pointer)
 			if cfi := fv.w.ByObj[f.Origin()]; wantPtr && !havePtr && !types.IsInterface(rt) && cfi != nil && cfi.Contract != nil && cfi.Contract.Pure {
 				// pure method with a pointer receiver called on an addressable value: a function of the value
+			} else if id, isId := ast.Unparen(se.X).(*ast.Ident); wantPtr && !havePtr && !types.IsInterface(rt) && isId && fv.th.structOf[rv.S] != nil && fv.recvConfined(f) {
+				// x.M() with a pointer receiver on a local struct variable x: copy-in / copy-out through a fresh
+				// cell (sound because the callee only selects fields of its receiver: it cannot retain the pointer)
+				r := fv.freshRef(st, "addr"+sanitize(id.Name))
+				cell := Val{r, SRef, recvT}
+				fv.storePointee(cell, rv, rt, st)
+				obj := fv.info.ObjectOf(id)
+				fv.copyOuts = append(fv.copyOuts, func() {
+					if _, isVar := st.vars[obj]; isVar {
+						nv := fv.loadPointee(cell, rt, st)
+						st.vars[obj] = Val{nv.T, nv.S, obj.Type()}
+					}
+				})
+				rv = cell
 			} else if wantPtr && !havePtr && !types.IsInterface(rt) {
 				fv.note("implicit address-of for method call %s", fv.text(se))
 				rv = fv.havocVal(st, "recvaddr", recvT)
@@ -414,6 +476,44 @@ func funcFullName(f *types.Func) string {
 }
 
 func (fv *FuncVC) evalFuncCall(call *ast.CallExpr, f *types.Func, st *State) []Val {
+	n := len(fv.copyOuts)
+	out := fv.evalFuncCall0(call, f, st)
+	for _, co := range fv.copyOuts[n:] {
+		co()
+	}
+	fv.copyOuts = fv.copyOuts[:n]
+	return out
+}
+
+// recvConfined: the method uses its receiver only to select fields (x.f), so the pointer cannot outlive the call.
+func (fv *FuncVC) recvConfined(f *types.Func) bool {
+	fi := fv.w.ByObj[f.Origin()]
+	if fi == nil || fi.Decl == nil || fi.Decl.Recv == nil || len(fi.Decl.Recv.List) == 0 || len(fi.Decl.Recv.List[0].Names) == 0 || fi.Decl.Body == nil {
+		return false
+	}
+	info := fi.Pkg.TypesInfo
+	robj := info.Defs[fi.Decl.Recv.List[0].Names[0]]
+	sel := map[*ast.Ident]bool{}
+	ok := true
+	ast.Inspect(fi.Decl.Body, func(m ast.Node) bool {
+		switch m := m.(type) {
+		case *ast.SelectorExpr:
+			if id, isId := m.X.(*ast.Ident); isId && info.Uses[id] == robj {
+				if s := info.Selections[m]; s != nil && s.Kind() == types.FieldVal {
+					sel[id] = true
+				}
+			}
+		case *ast.Ident:
+			if info.Uses[m] == robj && !sel[m] {
+				ok = false
+			}
+		}
+		return true
+	})
+	return ok
+}
+
+func (fv *FuncVC) evalFuncCall0(call *ast.CallExpr, f *types.Func, st *State) []Val {
 	full := funcFullName(f.Origin())
 	if noopFuncs[full] {
 		for _, a := range call.Args {
@@ -553,9 +653,26 @@ func (fv *FuncVC) pureApp(call *ast.CallExpr, f *types.Func, full string, recv *
 				}
 			}
 		}
+		fv.dynTypeFact(st, v)
 		out = append(out, v)
 	}
 	return out
+}
+
+// dynTypeFact: a non-nil value whose static type is a pointer to a named (non interface) type has that
+// dynamic type (Go's typing). Terms mentioning bound variables are left alone.
+func (fv *FuncVC) dynTypeFact(st *State, v Val) {
+	if v.S != SRef || v.GoT == nil || st == nil || strings.Contains(v.T, "?") || v.T == "nil" {
+		return
+	}
+	p, ok := types.Unalias(v.GoT).(*types.Pointer)
+	if !ok {
+		return
+	}
+	if _, ok := types.Unalias(p.Elem()).(*types.Named); !ok || types.IsInterface(p.Elem()) {
+		return
+	}
+	fv.addFact(st, mkOr(mkEq(v.T, "nil"), mkEq(sx("dyntype", v.T), intLit(int64(fv.th.tagOf(v.GoT))))))
 }
 
 func (fv *FuncVC) callUnknown(call *ast.CallExpr, f *types.Func, full string, recv *Val, args []Val, st *State, inRepo bool) []Val {
@@ -627,7 +744,7 @@ func (fv *FuncVC) callContract(call *ast.CallExpr, fi *FuncInfo, recv *Val, args
 			resBind[r.Name()] = v
 		}
 	}
-	if fc.Pure && len(results) == 1 {
+	if fc.Pure && len(results) >= 1 {
 		// pure function: result is a function of the arguments (and the heaps it reads: listed)
 		var all []Val
 		if recv != nil {
@@ -642,9 +759,17 @@ func (fv *FuncVC) callContract(call *ast.CallExpr, fi *FuncInfo, recv *Val, args
 			ts[j] = a.T
 		}
 		if len(all) > 0 {
-			fv.th.declFun(name, sorts, results[0].S)
-			t := sx(name, ts...)
-			fv.addFact(st, mkEq(results[0].T, t))
+			for ri := range results {
+				if fc.PureOnly != nil && !fc.PureOnly[ri] {
+					continue
+				}
+				nm := name
+				if ri > 0 {
+					nm = fmt.Sprintf("%s$r%d", name, ri+1)
+				}
+				fv.th.declFun(nm, sorts, results[ri].S)
+				fv.addFact(st, mkEq(results[ri].T, sx(nm, ts...)))
+			}
 		}
 	}
 	// atlock(e) in a callee's postcondition denotes a state inside the callee (right after its Lock()):
@@ -927,4 +1052,49 @@ func (fv *FuncVC) pureMethodKey(f *types.Func) (string, bool) {
 	}
 	key := f.Pkg().Path() + "." + n.Obj().Name() + "." + f.Name()
 	return key, fv.w.PureMethods[key]
+}
+
+// localClosure: the function literal a local variable is bound to, when it is assigned exactly once.
+func (fv *FuncVC) localClosure(o types.Object) *ast.FuncLit {
+	if o == nil {
+		return nil
+	}
+	var found *ast.FuncLit
+	n := 0
+	ast.Inspect(fv.fi.Decl.Body, func(m ast.Node) bool {
+		as, ok := m.(*ast.AssignStmt)
+		if !ok {
+			return true
+		}
+		for i, l := range as.Lhs {
+			if id, ok := l.(*ast.Ident); ok && fv.info.ObjectOf(id) == o {
+				n++
+				if i < len(as.Rhs) {
+					if fl, ok := as.Rhs[i].(*ast.FuncLit); ok {
+						found = fl
+					}
+				}
+			}
+		}
+		return true
+	})
+	if n != 1 {
+		return nil
+	}
+	return found
+}
+
+// straightLine: `x, y := e` definitions followed by one return statement.
+func straightLine(l []ast.Stmt) bool {
+	if len(l) == 0 {
+		return false
+	}
+	for _, s := range l[:len(l)-1] {
+		as, ok := s.(*ast.AssignStmt)
+		if !ok || as.Tok != token.DEFINE {
+			return false
+		}
+	}
+	_, ok := l[len(l)-1].(*ast.ReturnStmt)
+	return ok
 }
